@@ -80,6 +80,7 @@ type FuncContract struct {
 	Fresh      []string // results that are freshly allocated
 	Trusted    bool     // body is not verified (explicitly listed as assumption)
 	NoReturn   []Clause // conditions (over entry values) under which the function never returns
+	ReadOnly   bool     // neutral and does not write through pointer arguments either
 	Sticky     bool     // successive results on the same arguments: once non-zero, stays the same
 	DeadEdges  int      // number of control-flow edges accepted as infeasible (defensive code)
 }
@@ -460,6 +461,9 @@ func parseSpecFile(path string, pkgPath string, raw bool) (*SpecFile, error) {
 				r = "true"
 			}
 			cur.NoReturn = append(cur.NoReturn, parseClause(r, path, nums[i]))
+		case "readonly":
+			cur.ReadOnly = true
+			cur.Neutral = true
 		case "sticky":
 			cur.Sticky = true
 			cur.Neutral = true
